@@ -12,7 +12,7 @@ From Coq Require Import ZArith Znumtheory.
 From mathcomp Require Import all_ssreflect all_algebra ssrZ.
 From V.Base Require Import PrimeBn256Order PrimeBridge.
 From V.C13 Require Import Model Proofs Bridge.
-From V.C15 Require Import Model Proofs Refute Bridge Proc Ids R0.
+From V.C15 Require Import Model Proofs Refute Bridge Proc Ids R0 Groups.
 Import GRing.Theory.
 Local Open Scope ring_scope.
 Delimit Scope Z_scope with ZZ.
@@ -156,6 +156,29 @@ Theorem C15_arrival_store_eviction_refuted :
   phase_of (zproc [:: EvCast true; EvVerify 0%N honest2; EvTimeout; EvVerify 0%N honest3]) = Some Closed.
 Proof. exact: store_evicted_run. Qed.
 Print Assumptions C15_arrival_store_eviction_refuted.
+
+(* ======== two groups: the sign-key lookup is a function of (group, member) ========
+   The verifier belongs to groups A and B and runs a signing party for a block of each; every verify
+   message concerns one of the two blocks.  (Stated for the model over any carrier, not only fields.) *)
+Theorem C15_two_group_noninterference :
+  forall (T M : Type) (o : ops T) (ideq veq : T -> T -> bool) (isz vz : T -> bool)
+         (meq : M -> M -> bool) (H : M -> T) (sel : list (T * T) -> list nat)
+         (bind : bool) (eA eB : @env T M) (evs : seq (gtag * @msg T M)),
+  snd (@two_run T M o ideq veq isz vz meq H sel bind eA eB evs) =
+  @party_final T M o ideq veq isz vz meq H sel bind eB (map snd (filter (@is_gb T M) evs)).
+Proof. move=> T M o ideq veq isz vz meq H sel bind eA eB evs; exact: two_group_noninterference. Qed.
+Print Assumptions C15_two_group_noninterference.
+
+(* A lookup that also consults state keyed by the miner alone (a pending key request raised by a
+   lookup in the other group) breaks it: a message forged in member 3's name about group A's block makes
+   member 3's valid share unreadable in group B, whose (2,3) round then cannot finalise (Z mod 101). *)
+Theorem C15_miner_keyed_lookup_refuted :
+  p_phase (snd (ztwo [:: (GA, forged3); (GB, honest2); (GB, honest3)])) = Finished /\
+  p_phase (snd (fst (zpend [:: (GB, honest2); (GB, honest3)]))) = Finished /\
+  p_phase (snd (fst (zpend [:: (GA, forged3); (GB, honest2); (GB, honest3)]))) = Collecting /\
+  length (g_map (st_g (p_st (snd (fst (zpend [:: (GA, forged3); (GB, honest2); (GB, honest3)])))))) = 1%N.
+Proof. exact: cross_group_run. Qed.
+Print Assumptions C15_miner_keyed_lookup_refuted.
 
 (* ======== round0: when is the cast message "accepted" (EvCast true of the arrival model) ========
    Control flow of round0.Update / afterPreArrived / checkBlock with the callbacks for a missing
